@@ -1,4 +1,8 @@
-// Package pkgb is the second origin of log calls (see pkga).
+// Package pkgb is the second origin of log calls in the C20 scenarios (see
+// pkga). The two files are kept line-for-line identical on purpose: a line
+// logged from pkga and the same line logged from pkgb then differ ONLY in the
+// file name, which is what the logger's duplicate detection has to notice.
+// (This comment has as many lines as the one in pkga/ops.go.)
 package pkgb
 
 import (
@@ -41,6 +45,14 @@ func Log(sev int, f bool, msg string) {
 	case 6:
 		log.Critical(msg)
 	}
+}
+
+var table = [...]func(string){nil, log.Trace, log.Debug, log.Info, log.Warning, log.Error, log.Critical}
+
+// LogVia emits one plain line through a function value: all severities share
+// this one call site (same file and line), only the level differs.
+func LogVia(sev int, msg string) {
+	table[sev](msg)
 }
 
 // Tracer adds a context tracer, logs the given lines through it and submits it.
